@@ -427,6 +427,9 @@ func cases(seed int64, nTrace, nSeq, everyIndex int) []caseIn {
 	next := 1
 	var cs []caseIn
 	const never = 1 << 30
+	if nTrace == 0 && nSeq == 0 && everyIndex == 0 {
+		return nil
+	}
 	// fixed small scripts
 	cs = append(cs,
 		caseIn{Class: "trace-two-passes", Script: []passIn{{Reqs: []int{1, 2, 3}}, {Reqs: []int{4, 5}}}, RescanUS: 15000, CancelAfter: never},
@@ -493,7 +496,15 @@ func main() {
 	every := flag.Int("every", 4, "short scripts run with a cancellation at every event index")
 	par := flag.Int("par", 48, "runs in parallel")
 	replay := flag.String("replay", "", "JSON file holding one case input")
+	capIf := flag.String("capture", "", "internal: log the ARP frames seen on this interface")
+	capMS := flag.Int("capms", 2000, "internal: capture duration")
+	e2e := flag.Int("e2e", 0, "end-to-end runs of `sx arp --live` in a private network namespace")
+	sxPath := flag.String("sx", "", "path of the sx binary for -e2e")
 	flag.Parse()
+	if *capIf != "" {
+		capture(*capIf, *capMS, *outPath)
+		return
+	}
 	w := hlib.NewOut(*outPath)
 	defer w.Close()
 	var cs []caseIn
@@ -526,8 +537,29 @@ func main() {
 			<-sem
 		}(i)
 	}
+	var e2eOuts []e2eOut
+	if *e2e > 0 && *sxPath != "" && *replay == "" {
+		self, _ := os.Executable()
+		wd, _ := os.Getwd()
+		configs := []struct {
+			interval, run int
+			exclude       []string
+		}{{300, 1100, nil}, {250, 950, []string{"5", "6"}}, {400, 1350, []string{"2"}}, {200, 900, []string{"0", "7"}}}
+		e2eOuts = make([]e2eOut, *e2e)
+		for i := 0; i < *e2e; i++ {
+			wg.Add(1)
+			go func(i int) {
+				defer wg.Done()
+				c := configs[i%len(configs)]
+				e2eOuts[i] = runE2E(*sxPath, self, wd, i, c.interval+10*(i/len(configs)), c.run, c.exclude)
+			}(i)
+		}
+	}
 	wg.Wait()
 	for i := range outs {
 		w.Put(outs[i])
+	}
+	for i := range e2eOuts {
+		w.Put(e2eOuts[i])
 	}
 }
